@@ -2,14 +2,17 @@ from .common import COMMON_TB
 
 CFG = dict(
         coq="Properties/C11.v",
-        areas=["delta", "bcj"],
+        areas=["delta", "bcj", "bcj2"],
         profiles=["release", "checked"],
         level="proof",
         theorems_expected=["C11_delta_inverse", "C11_delta_matches_reference", "C11_delta_write_partition", "C11_delta_read_partition",
                            "C11_bcj_inverse_arm", "C11_bcj_inverse_armthumb", "C11_bcj_inverse_arm64", "C11_bcj_inverse_ppc",
                            "C11_bcj_inverse_sparc", "C11_bcj_inverse_ia64", "C11_bcj_inverse_x86", "C11_bcj_inverse_riscv", "C11_bcj_inverse_all", "C11_bcj_roundtrip", "C11_bcj_reader_any_sizes", "C11_bcj_reader_zero_read",
                            "C11_bcj_reader_retry", "C11_bcj_writer_partition_refuted", "C11_bcj_writer_partition_known",
-                           "C11_bcj_checked_add_refuted"],
+                           "C11_bcj_checked_add_refuted",
+                           "C11_bcj2_decodes_spec", "C11_bcj2_reader_any_chunking", "C11_bcj2_reader_zero_read",
+                           "C11_bcj2_reader_interrupted_refuted", "C11_bcj2_reader_partial_word_refuted",
+                           "C11_bcj2_ip_checked_add_refuted"],
         rule="cases = (filter, parameters, data, write-call partition / inner reader script + destination-size history) derived from VERIF_SEED by "
              "SplitMix64. Delta: data from 10 compressibility classes. BCJ: 8 architectures x {random, slices of the real executables "
              "/repo/tests/data/wget-*, synthetic code dense in the architecture's branch instructions, instructions straddling offset 4096/8192, "
@@ -21,10 +24,25 @@ CFG = dict(
              "kind / panic) must be identical strings. The oracle evaluates the property on the implementation: decode(encode(x)) = x through "
              "BCJWriter -> BCJReader for aligned start offsets, byte equality of the filtered/unfiltered bytes with liblzma's filters (start offset as "
              "4-byte LE property, when it fits), sink receives every byte, reader output independent of chunking, read sizes and transient inner "
-             "failures. distinct_nontrivial = distinct command lines whose output is non-empty",
+             "failures. BCJ2 (area bcj2): four-stream inputs made by a reference BCJ2 encoder inside the harness (a transcription of 7-Zip's "
+             "Bcj2Enc, END_STREAM mode, with the conversion decisions taken from the case; every case class also checks that encoder against "
+             "the Gallina specification encoder, byte for byte) from data {0..11 bytes, random, dense E8/E9/0F 8x code with targets near 0 and "
+             "2^32 and opcodes inside operands, slices of /repo/tests/data/wget-x86, 00/FF/E8/0F runs, 2-60 KB} x decision lists {all, none, "
+             "alternating, random, mostly, ending early} x per-stream inner-reader scripts {one chunk, pieces of 1,2,3,5,6,7 bytes, bytes, "
+             "multiples of 4, small primes, pow2+-1, random; 3 in 10 with Interrupted failures, 1 in 10 with a hard failure} x destination-size "
+             "cycles {4096, 1, with zeros, 3/0/5/2, 100000, 4/1/2/3, random}; 1 in 4 cases malformed {truncated stream, flipped bits, declared "
+             "size too small / too big / 0, CALL and JUMP swapped, garbage, first RC byte non-zero, RC = FF FF FF FF, trailing bytes, a "
+             "stream dropped, CALL/JUMP length not a multiple of 4}. Oracle: for uncorrupted input the output is the data (also through the "
+             "one-chunk / one-big-destination run: independence of chunking, read sizes and transient failures), errors only those the inner "
+             "readers produced; for malformed input no panic and no hang. distinct_nontrivial = distinct command lines whose output is non-empty",
         trusted_base=COMMON_TB + ["liblzma 5.x (liblzma-sys 0.4.8, static) as the reference filter implementation in the oracle"],
         assumptions=["Delta: the inner reader/writer behaves as a perfect source/sink. BCJ: the inner reader follows a script of non-empty chunks and "
                      "failing calls (any error kind), Ok(0) only at its end; the inner writer takes every byte (write_all in BCJWriter makes its "
                      "chunking irrelevant, exercised by the bcj_enc_short cases); faults beyond that are C05's business",
-                     "usize = 64 bit (the harness platform); the model's position arithmetic wraps at 2^64"],
+                     "usize = 64 bit (the harness platform); the model's position arithmetic wraps at 2^64",
+                     "BCJ2: 'correctly encoded four-stream input' = output of the specification encoder Filter/Bcj2Enc.v for some data and some "
+                     "list of conversion decisions (7-Zip's Bcj2Enc with its heuristics replaced by an arbitrary choice; tied to the harness's "
+                     "transcription of Bcj2Enc.c, no 7-Zip binary is available offline); data shorter than 2^32 - 6 bytes; the four inner readers "
+                     "follow scripts of non-empty chunks (theorems: data only; the correspondence also runs failing calls); the 4 x 256 KiB buffer "
+                     "is represented by the live regions of its four parts"],
     )
